@@ -151,8 +151,12 @@ val starteds : items -> bool
 val throw_as_resume : event -> event
 
 type fkind =
-| KFunc of bool
+| KFunc of bool * bool
 | KGen of bool * bool
+
+type cvar = { cv_fall : (fkind -> bool); cv_wrap2 : bool }
+
+val wrapped : fkind -> bool
 
 type stmt =
 | SExpr
@@ -210,14 +214,13 @@ val exec_l :
   bool -> bool -> nat -> nat -> block -> block -> choice list -> (tok
   list * outcome) * choice list
 
-val falloff : (fkind -> bool) -> fkind -> bool -> tok list
+val falloff : cvar -> fkind -> bool -> tok list
 
-val finish : (fkind -> bool) -> bool -> fkind -> bool -> outcome -> tok list
+val finish : cvar -> bool -> fkind -> bool -> outcome -> tok list
 
 val gen_allowed : fkind -> bool
 
-val run :
-  (fkind -> bool) -> bool -> func -> nat -> choice list -> tok list * outcome
+val run : cvar -> bool -> func -> nat -> choice list -> tok list * outcome
 
 val default_branch : tok list
 
@@ -230,7 +233,7 @@ type etok =
 | EExc
 | EUnw
 
-val epilogue : (fkind -> bool) -> fkind -> bool -> etok list
+val epilogue : cvar -> fkind -> bool -> etok list
 
 val take_seg : tok list -> tok list
 
@@ -257,32 +260,31 @@ val tok_events : tool -> bool -> nat -> tok -> event list
 val expand : tool -> bool -> nat -> tok list -> event list list -> event list
 
 val seg_of :
-  (fkind -> bool) -> bool -> func list -> nat -> choice list -> nat -> nat ->
-  tok list
+  cvar -> bool -> func list -> nat -> choice list -> nat -> nat -> tok list
 
-val word :
-  (fkind -> bool) -> bool -> tool -> bool -> func list -> xt -> event list
+val word : cvar -> bool -> tool -> bool -> func list -> xt -> event list
 
 val words :
-  (fkind -> bool) -> bool -> tool -> bool -> func list -> xts -> event list
-  list
+  cvar -> bool -> tool -> bool -> func list -> xts -> event list list
 
 val mids : tok list -> node list -> (items * ekind) option
 
 val seg_node : nat -> tok list -> node list -> node option
 
-val to_node : (fkind -> bool) -> bool -> func list -> xt -> node option
+val to_node : cvar -> bool -> func list -> xt -> node option
 
-val to_nodes : (fkind -> bool) -> bool -> func list -> xts -> node list option
+val to_nodes : cvar -> bool -> func list -> xts -> node list option
 
-val complete : (fkind -> bool) -> bool -> func list -> xt -> bool
+val complete : cvar -> bool -> func list -> xt -> bool
 
-val completes : (fkind -> bool) -> bool -> func list -> xts -> bool
+val completes : cvar -> bool -> func list -> xts -> bool
 
-val func_ok : bool -> func -> bool
+val func_ok : cvar -> bool -> func -> bool
 
-val prog_ok : bool -> func list -> bool
+val prog_ok : cvar -> bool -> func list -> bool
 
-val all_true : fkind -> bool
+val as_is : cvar
 
-val g_not_inlined : fkind -> bool
+val wrap_fixed : cvar
+
+val g_not_inlined : cvar
